@@ -1,4 +1,5 @@
 """C12 Angle-object arithmetic and comparison agree with decimal-degree arithmetic."""
+import copy
 import math
 import operator
 import random
@@ -17,11 +18,11 @@ RULE = ('random expression trees of depth 1..6 over + - neg abs *k k* /k %k with
         'classes to its leaves; every operator call is judged by its monitor against the float operation on the operands\' '
         'exactly denoted values (1e-8" + 4 ulp), result class = class of the angle operand; comparisons judged where operands '
         'differ by more than 1e-8" and checked for mutual consistency always; round(a, n) moves the value by at most half a '
-        'unit of the place; whole-tree result compared with the shadow evaluation within the propagated tolerance. '
+        'unit of the place; every angle operand is copied before the operator runs, is judged on that copy, and must still denote the same angle afterwards; whole-tree result compared with the shadow evaluation within the propagated tolerance. '
         'distinct = (class, operator, operand-class, sign/zero class) buckets')
 ASSUMPTIONS = ['angle_exact gives the denoted value of every operand/result from the stored fields (exact rationals)',
                'comparisons closer than the 1e-8" resolution may answer either way (DESIGN.md section 5)']
-REQUIRED_COUNTERS = ['rounding_carry_cases', 'modulus_equal_to_angle', 'numpy_scalar_operands', 'round_then_mod_sequences', 'op:add', 'op:sub', 'op:radd', 'op:rsub', 'op:mul', 'op:rmul', 'op:truediv', 'op:neg', 'op:abs', 'op:mod', 'op:eq', 'op:lt',
+REQUIRED_COUNTERS = ['operand_snapshots_compared', 'rounding_carry_cases', 'modulus_equal_to_angle', 'numpy_scalar_operands', 'round_then_mod_sequences', 'op:add', 'op:sub', 'op:radd', 'op:rsub', 'op:mul', 'op:rmul', 'op:truediv', 'op:neg', 'op:abs', 'op:mod', 'op:eq', 'op:lt',
                      'op:gt', 'op:ne', 'op:round', 'trees']
 N = {'quick': 400, 'thorough': 6000}
 SHARDS = {'quick': 16, 'thorough': 32}
@@ -178,6 +179,32 @@ class OpMonitors:
             kind = 'wrong-sign' if abs(dr + da) <= allow and abs(da) > allow else 'moved-more-than-half-unit'
             self._viol(cls, '__round__', kind, a, n, res, {'before_deg': float(da), 'after_deg': float(dr), 'places': n})
 
+    def _snap(self, x):
+        """an independent copy of an angle operand taken before the operator runs (judgements use the value the operand
+        had when the operator was called; afterwards the operand itself must still denote that value)"""
+        if not self._isangle(x):
+            return x
+        try:
+            return copy.copy(x)
+        except Exception:
+            return x
+
+    def operands_unchanged(self, cls, op, before, after_objs):
+        """An operator may normalise its operand's fields, but the operand must denote the same angle afterwards:
+        otherwise every later use of it differs from the float operation on the value it was given."""
+        for role, snap, obj in zip(('self', 'other'), before, after_objs):
+            if snap is obj or not self._isangle(obj):
+                continue
+            d0, d1 = _den(snap), _den(obj)
+            self.ctx.count('operand_snapshots_compared')
+            if d0 is None:
+                continue
+            if d1 is None or abs(d1 - d0) > TOL:
+                self._viol(cls, op, 'operand-changed-by-operator', snap, None, obj,
+                           {'role': role, 'before_deg': float(d0), 'after_deg': (None if d1 is None else float(d1))})
+                return False
+        return True
+
     def install(self):
         A = self.A
         mon = self
@@ -203,12 +230,14 @@ class OpMonitors:
         def wrapper(self_, other):
             if not mon.active:
                 return fn(self_, other)
+            a0, b0 = mon._snap(self_), mon._snap(other)
             try:
                 r = fn(self_, other)
             except Exception as e:
-                judge(cname, op, self_, other, None, e)
+                judge(cname, op, a0, b0, None, e)
                 raise
-            judge(cname, op, self_, other, r, None)
+            mon.operands_unchanged(cname, op, (a0, b0), (self_, other))
+            judge(cname, op, a0, b0, r, None)
             return r
         wrapper.__name__ = op
         setattr(cls, op, wrapper)
@@ -221,12 +250,14 @@ class OpMonitors:
         def wrapper(self_):
             if not mon.active:
                 return fn(self_)
+            a0 = mon._snap(self_)
             try:
                 r = fn(self_)
             except Exception as e:
-                mon.judge_arith(cname, op, self_, None, None, e)
+                mon.judge_arith(cname, op, a0, None, None, e)
                 raise
-            mon.judge_arith(cname, op, self_, None, r, None)
+            mon.operands_unchanged(cname, op, (a0,), (self_,))
+            mon.judge_arith(cname, op, a0, None, r, None)
             return r
         wrapper.__name__ = op
         setattr(cls, op, wrapper)
@@ -239,12 +270,14 @@ class OpMonitors:
         def wrapper(self_, n=None):
             if not mon.active:
                 return fn(self_, n)
+            a0 = mon._snap(self_)
             try:
                 r = fn(self_, n)
             except Exception as e:
-                mon.judge_round(cname, self_, n, None, e)
+                mon.judge_round(cname, a0, n, None, e)
                 raise
-            mon.judge_round(cname, self_, n, r, None)
+            mon.operands_unchanged(cname, '__round__', (a0,), (self_,))
+            mon.judge_round(cname, a0, n, r, None)
             return r
         wrapper.__name__ = '__round__'
         setattr(cls, '__round__', wrapper)
